@@ -31,13 +31,14 @@ def t10(x, flags):
     return r
 
 
-def run_engine(case):
+def run_engine(case, eng=None):
     from src.alignment.aligner import AlignerEngine
     from src.alignment.alignment_position import AlignedPair, NotAlignedReferencePosition, NotAlignedQueryPosition
     from src.correlation.optical_map import OpticalMap
     ref = OpticalMap(1, pv(case['rlen']), [pv(p) for p in case['refp']], case['rshift'])
     qry = OpticalMap(2, pv(case['qlen']), [pv(p) for p in case['qp']], case['qshift'])
-    eng = AlignerEngine(pv(case['d']))
+    if eng is None:
+        eng = AlignerEngine(pv(case['d']))
     eng.iteration = case['it']
     res = eng.align(ref, qry, pv(case['start']), pv(case['stop']), bool(case['rev']))
     flags, pos = [], []
@@ -300,4 +301,58 @@ class Random(Base):
         return [random_case(rng) for _ in range(n)]
 
 
-STREAMS = [Lattice(), Random()]
+class Sequence(Base):
+    """several calls on ONE AlignerEngine instance (as the second pass does: fragments of one molecule keep its id): any state kept
+    between calls (caches keyed by molecule id / strand, leaked label lists) shows up as a disagreement of a later call"""
+    name = 'sequence'
+    shard = 300
+    prelude = Base.prelude.replace('Definition check (c :', 'Definition check1 (c :') + '''
+Definition check (l : list (Z * Z * (Z * list Z * Z) * (Z * list Z * Z) * Z * Z * bool * list t7)) : Z := fold_left Z.max (List.map check1 l) 0.'''
+
+    def gen(self, rng, tier):
+        n = 300 if tier == 'quick' else 3000
+        out = []
+        for _ in range(n):
+            first = random_case(rng)
+            calls = [first]
+            for _ in range(rng.randint(1, 3)):
+                c = random_case(rng)
+                c['d'] = first['d']
+                if rng.random() < 0.7:          # a fragment of the same molecule: same length and strand, other labels / label-number offset
+                    c['qlen'] = max(first['qlen'], (max(c['qp']) + 10) if c['qp'] else 0)
+                    if rng.random() < 0.7:
+                        c['rev'] = first['rev']
+                if rng.random() < 0.5:
+                    c['refp'], c['rlen'], c['rshift'] = first['refp'], first['rlen'], first['rshift']
+                calls.append(c)
+            out.append(dict(calls=calls))
+        return out
+
+    def impl(self, case):
+        from src.alignment.aligner import AlignerEngine
+        eng = AlignerEngine(pv(case['calls'][0]['d']))
+        outs = []
+        for c in case['calls']:
+            try:
+                outs.append(run_engine(c, eng))
+            except Exception as e:
+                outs.append(dict(err=type(e).__name__))
+        return outs
+
+    def term(self, case, out):
+        return clist(Base.term(self, c, o) for c, o in zip(case['calls'], out))
+
+    def oracle(self, case, out):
+        errs = []
+        for k, (c, o) in enumerate(zip(case['calls'], out)):
+            errs += ['call %d on the same engine: %s' % (k + 1, e) for e in Base.oracle(self, c, o)]
+        return errs[:3]
+
+    def classify(self, case, out):
+        return ['calls=%d' % len(case['calls'])]
+
+    def nontrivial(self, case, out):
+        return repr(case) if any('pos' in o and any(e[0] == 0 for e in o['pos']) for o in out) else None
+
+
+STREAMS = [Lattice(), Random(), Sequence()]
